@@ -69,6 +69,20 @@ func Build(verifDir string) (string, error) {
 		b, _ := ioutil.ReadFile(f)
 		ioutil.WriteFile(filepath.Join(drv, filepath.Base(f)), b, 0644)
 	}
+	// reference senders the driver uses to make add-on, damaged and Aztec symbols
+	for _, pkg := range []string{"gf", "onedref", "aztecref"} {
+		dst := filepath.Join(drv, pkg)
+		os.MkdirAll(dst, 0755)
+		srcs, _ := filepath.Glob(filepath.Join(verifDir, "chansim", pkg, "*.go"))
+		for _, f := range srcs {
+			if strings.HasSuffix(f, "_test.go") {
+				continue
+			}
+			b, _ := ioutil.ReadFile(f)
+			b = []byte(strings.Replace(string(b), "\"verif/chansim/", "\"verifdriver/", -1))
+			ioutil.WriteFile(filepath.Join(dst, filepath.Base(f)), b, 0644)
+		}
+	}
 	gomod := "module verifdriver\n\ngo 1.17\n\nrequire github.com/makiuchi-d/gozxing v0.0.0\n\nreplace github.com/makiuchi-d/gozxing => ../repo\n"
 	ioutil.WriteFile(filepath.Join(drv, "go.mod"), []byte(gomod), 0644)
 	if b, err := ioutil.ReadFile(filepath.Join(repoDir, "go.sum")); err == nil {
@@ -371,7 +385,7 @@ func judge(o *simOutcome, syncFree bool) (vs []verdict, harness string) {
 
 // ---------------------------------------------------------------- generation
 
-var opKinds = []string{"qr", "dm", "ean13", "ean8", "upca", "upce", "code39", "code93", "code128", "itf", "codabar", "qrmulti", "aztec", "rs", "bin", "eci"}
+var opKinds = []string{"qr", "dm", "ean13", "ean8", "upca", "upce", "code39", "code93", "code128", "itf", "codabar", "qrmulti", "aztec", "rs", "bin", "eci", "eanext", "qrdmg", "dmdmg", "aztecgen"}
 
 func gen18(c *kit.Ctx, numSites int) *Trace18 {
 	r := c.RNG
@@ -517,6 +531,10 @@ func run18(c *kit.Ctx, e *env18) {
 	o, err := simulate(dir, tr, solo)
 	if err != nil {
 		c.Fatal(err.Error())
+		return
+	}
+	if o.sim.StateWords < 0 {
+		c.Fatal("state walker exceeded its word budget (package-level state too large or too shared to digest)")
 		return
 	}
 	account(c, tr, o)
